@@ -37,6 +37,28 @@ CLAIMS = {
              "bit for bit, so any other wrong answer is still a violation.",
         technique="TLA+ trace validation with TLC (impl->spec) + named-deviation A-model for the recorded defect",
         design_ref="6/C07"),
+    "C03": dict(
+        text="Recorded comparisons of the real library (==, !=, <, <=, >, >=, partial_cmp; both operand orders) between fixed types "
+             "(all 324 ordered pairs of 8-bit layouts, 288 cross-width pairs), 12 primitive integer types and f32/f64 bit patterns "
+             "(every class incl. -0, subnormals, top binade, infinities, NaN payloads) are validated by TLC against the exact rational "
+             "comparison CmpVal/CmpFloat of tla/sem/SemConv.tla; Ord/Hash within one type.",
+        technique="TLA+ trace validation with TLC (impl->spec), exact rational comparison; floats decoded from bit patterns",
+        design_ref="6/C03"),
+    "C04": dict(
+        text="fixed<->fixed, fixed<->integer and bool conversions through to_num and from_num call paths in all five forms, plus ~1100 "
+             "existing From/LossyFrom impls, validated by TLC against R = floor(x * 2^(fd-fs)) and the generic policies; From must be "
+             "lossless and in range for every source value.",
+        technique="TLA+ trace validation with TLC (impl->spec)", design_ref="6/C04"),
+    "C05": dict(
+        text="float->fixed (five forms, both call paths) and fixed->float (five forms) for f32/f64 over 106 layouts: TLC recomputes "
+             "round-to-nearest-even on exact integers (FloatToFixR, FixToFloatBits incl. gradual underflow and overflow to infinity) and "
+             "compares bit for bit; non-finite inputs must be rejected as documented.",
+        technique="TLA+ trace validation with TLC (impl->spec), IEEE-754 rounding defined on exact integers in TLA+", design_ref="6/C05"),
+    "C10": dict(
+        text="SCALE encode/decode (exact, every short prefix, long input), encoded_size, max_encoded_len, le/be/ne byte views, bits round "
+             "trips and the serde struct/sequence forms, validated by TLC against LEBytes(bits mod 2^w, w/8) for every value of the 8-bit "
+             "layouts and lattice+random values of 88 wider layouts.",
+        technique="TLA+ trace validation with TLC (impl->spec)", design_ref="6/C10"),
 }
 
 REASON_TODO = "check not built yet in this round; the specification does not cover it so far"
